@@ -980,6 +980,15 @@ func (d *Pegnetd) ApplyTransactionBlock(sqlTx *sql.Tx, eblock *factom.EBlock) er
 		} else if isReplay {
 			continue
 		}
+		// A copy of an entry that is still in holding, or that was rejected, has
+		// no relations yet but is a repeat all the same. Recording it a second
+		// time would violate the history keys and fail this block on every try.
+		isRecorded, err := d.Pegnet.IsTransactionRecorded(sqlTx, txBatch.Entry.Hash)
+		if err != nil {
+			return err
+		} else if isRecorded {
+			continue
+		}
 		// At this point, we know that the transaction batch is valid and able to be executed.
 
 		if err = d.Pegnet.InsertTransactionHistoryTxBatch(sqlTx, blockorder, txBatch, eblock.Height); err != nil {
